@@ -56,7 +56,35 @@ def run(tier):
         invs = "NoDup CapWithinMax Conservation NoOrphan EarlyBound" + ("" if "ExpansionReordersRows" in kd else " PerProducerOrder")
         cfg = "SPECIFICATION Spec\nCONSTANTS Producers = %s RowsPer = %d Cap0 = %d MaxCap = %d Inc = 1 Emit = FALSE\nINVARIANTS %s\nVIEW View\nCHECK_DEADLOCK FALSE\n" % (prods, rows, cap0, mx, invs)
         seqfam.model(res, PIPE, "Ingest", cfg, "Ingest", {"Producers": prods, "RowsPer": rows, "Cap0": cap0, "MaxCap": mx}, timeout=1200)
+    # the counting clauses for EVERY number of rows: Ingest.tla refines the counter machine IngestCount.tla (TLC, small constants), whose
+    # conservation / ceiling invariant is inductive - discharged by Apalache for all counter values and every ceiling (base and step)
+    for prods, rows, cap0, mx in ([("{1, 2}", 3, 1, 3)] if quick else [("{1, 2}", 3, 1, 3), ("{1, 2, 3}", 2, 1, 3), ("{1}", 5, 2, 5)]):
+        cfg = "SPECIFICATION Spec\nCONSTANTS Producers = %s RowsPer = %d Cap0 = %d MaxCap = %d Inc = 1 Emit = FALSE\nINVARIANTS AbsInv\nPROPERTY Refines\nVIEW View\nCHECK_DEADLOCK FALSE\n" % (prods, rows, cap0, mx)
+        seqfam.model(res, PIPE, "IngestRefines", cfg, "IngestRefines", {"Producers": prods, "RowsPer": rows, "Cap0": cap0, "MaxCap": mx, "property": "Ingest refines IngestCount"}, timeout=1200)
+    res.cov["unbounded_inductive_invariant"] = apalache_indinv(res)
     return res.finish()
+
+
+def apalache_indinv(res):
+    """IngestCount!IndInv is inductive (Init => IndInv; IndInv /\ Next => IndInv') for all integers - Apalache, under a timeout. Not a
+    verdict: a failure or a timeout is a note (the bounded TLC results and the trace validation stand on their own)."""
+    import shutil, subprocess
+    d = os.path.join(vlib.scratch(), "apalache")
+    os.makedirs(d, exist_ok=True)
+    shutil.copy(os.path.join(PIPE, "IngestCount.tla"), d)
+    out = {}
+    for name, args in (("base", ["--init=Init", "--length=0"]), ("step", ["--init=IndInit", "--length=1"])):
+        try:
+            p = subprocess.run(["apalache-mc", "check", "--cinit=CInit", "--inv=IndInv", "--out-dir=" + os.path.join(d, "out")] + args + ["IngestCount.tla"], cwd=d,
+                               stdout=subprocess.PIPE, stderr=subprocess.STDOUT, text=True, timeout=300, env=dict(os.environ, JAVA_TOOL_OPTIONS="-Djava.io.tmpdir=" + d))
+            out[name] = "NoError" if "The outcome is: NoError" in p.stdout else "Error" if "The outcome is: Error" in p.stdout else "failed: " + p.stdout[-200:].replace("\n", " ")
+        except Exception as e:
+            out[name] = "not run: %s" % type(e).__name__
+    if out.get("base") == "NoError" and out.get("step") == "NoError":
+        res.notes.append("Apalache: IngestCount!IndInv (conservation, capacity ceiling, rows fit during an expansion) is an inductive invariant for all counter values and every ceiling (base and step NoError); TLC: Ingest.tla refines IngestCount.tla")
+    else:
+        res.notes.append("Apalache did not discharge IngestCount!IndInv in this run (%s) - no verdict depends on it" % out)
+    return out
 
 
 if __name__ == "__main__":
